@@ -671,6 +671,11 @@ async fn exec(cx: &mut Cx<'_>, st: &Step) {
                         let f = unsafe_extend(t, m);
                         Some(Box::pin(async move { unit(f.await, raw) }))
                     }
+                    (H::Ask(t), SendKind::Ask) => {
+                        let t = t.clone();
+                        let f = unsafe_extend_ask(t, m);
+                        Some(Box::pin(async move { rep(f.await, raw) }))
+                    }
                     _ => None,
                 };
                 (op, raw, fut)
@@ -1166,6 +1171,24 @@ fn unsafe_extend(t: Box<dyn TellHandler<Msg>>, m: Msg) -> impl Future<Output = r
     // moving `o` does not move the heap allocation the future refers to.
     let href: &'static dyn TellHandler<Msg> = unsafe { &*(o._h.as_ref() as *const dyn TellHandler<Msg>) };
     o.fut = Some(href.tell(m));
+    o
+}
+
+fn unsafe_extend_ask(t: Box<dyn AskHandler<Msg, Rep>>, m: Msg) -> impl Future<Output = rsactor::Result<Rep>> + Send {
+    struct Owned {
+        fut: Option<std::pin::Pin<Box<dyn Future<Output = rsactor::Result<Rep>> + Send>>>,
+        _h: Box<dyn AskHandler<Msg, Rep>>,
+    }
+    impl Future for Owned {
+        type Output = rsactor::Result<Rep>;
+        fn poll(mut self: std::pin::Pin<&mut Self>, cx: &mut Context<'_>) -> Poll<Self::Output> {
+            self.fut.as_mut().unwrap().as_mut().poll(cx)
+        }
+    }
+    let mut o = Owned { fut: None, _h: t };
+    // SAFETY: as in unsafe_extend
+    let href: &'static dyn AskHandler<Msg, Rep> = unsafe { &*(o._h.as_ref() as *const dyn AskHandler<Msg, Rep>) };
+    o.fut = Some(href.ask(m));
     o
 }
 
